@@ -269,7 +269,7 @@ REGISTRY = {
         ],
         "assumptions": ["finite sources; user functions terminate; static well-formedness dag_ok of the execution graph (decidable; it excludes exactly the start-up panic of known finding F11: a consumer replica without producer)"],
         "level_text": "Proof: for every acyclic network of marker-level replicas without demultiplexers (every non-iterative one-host job), every capacity, data volume and schedule, no reachable state is a deadlock, every execution is finite and ends with all replicas exited (C04_dag_no_deadlock, C04_dag_job_terminates: global counting invariant over channels + the generic level argument C04_no_deadlock); block inputs are proved to keep reading until every producer's Terminate arrived, to emit Terminate exactly once and last, and to block only on empty sides that still owe a marker. Completeness of each sink is C01's theorem. Tied to the code by whole jobs on the real engine (loops, side inputs, diamonds, empty inputs, inputs larger than the total channel capacity, all batch modes, local and multi-host) under a watchdog, results compared with the sequential meaning. Partial: loops and multiplexed multi-host connections are outside the network theorem.",
-        "level_note": "Trusted: Coq kernel/vm_compute, network model (tied to the engine by whole-job runs only), harness watchdogs. Known findings F9 (iterate hang), F11, F12, F13 (multi-host join deadlock). No axioms.",
+        "level_note": "Trusted: Coq kernel/vm_compute, network model (tied to the engine by whole-job runs under a watchdog, by dag_okb on the real scheduler's graphs and by the engine replays of the two model deadlocks), harness watchdogs. Known findings F9 (iterate hang), F11, F12, F13 (multi-host join deadlock). No axioms.",
         "explanation": "C04_* proved on the network model (all acyclic one-host jobs); whole jobs run on the engine under a watchdog.",
     },
 }
